@@ -65,4 +65,14 @@ CHECKS["C09"] = {
     "parts": [{"bin": "C09_latch_barrier"}],
 }
 
+CHECKS["C14"] = {
+    "registered": True,
+    "engine": "seqx + pmc-os + pmc-rt",
+    "technique": "BFS over sequential copy/move/assign/register histories vs a reference stop-state model (de-duplicated on the model state, every transition replayed on the real objects) + stateless preemption-bounded exhaustive schedule enumeration of racing request_stop / register / destroy programs",
+    "level_text": "All operation histories to depth 5 (6 thorough) over 2 sources, 2 tokens and 2 callbacks are executed on the real classes, on a plain thread and inside a pika task, and compared step by step with a reference model (stop_possible, stop_requested, request_stop results, callback run counts; a history that does not return is a reported hang). Racing request_stop callers, registration vs request_stop, destruction vs a running callback and self-deregistration are explored over every schedule within the deviation bound on OS threads and on pika tasks.",
+    "level_note": "Sequentially consistent interleavings only; 2-3 racing threads/tasks; callbacks contain two harness scheduling points so that the 'is executing' window is wide; histories are bounded by depth, not by the number of objects (2 of each).",
+    "rule": "seqx: BFS histories depth<=5/6; pmc: race programs x all schedules within the deviation bound",
+    "parts": [{"bin": "C14_stop_seq", "part": "seq"}, {"bin": "C14_stop_race", "part": "race"}],
+}
+
 PENDING = {}
